@@ -205,6 +205,7 @@ PROPS["C09"] = dict(
             dict(name="settings", kind="rapid", run="^TestC09_Settings$", checks=(3000, 40000), shards=(2, 8), timeout=(600, 3000)),
             dict(name="dictionary", kind="rapid", run="^TestC09_Dictionary$", checks=(150, 1500), shards=(8, 16), timeout=(600, 3000)),
             dict(name="session", kind="rapid", run="^TestC09_Session$", pkg="./props/session", checks=(1500, 25000), shards=(8, 16), timeout=(600, 3000)),
+            dict(name="acceptor-socket", kind="rapid", run="^TestC09_AcceptorSocket$", pkg="./props/session", checks=(0, 400), shards=(0, 4), timeout=(0, 1500), thorough_only=True),
             dict(name="fuzz-message", kind="fuzz", run="^FuzzC09_Message$", thorough_only=True, fuzztime=(0, 90), timeout=(0, 400)),
             dict(name="fuzz-stream", kind="fuzz", run="^FuzzC09_Stream$", thorough_only=True, fuzztime=(0, 60), timeout=(0, 400)),
             dict(name="fuzz-settings", kind="fuzz", run="^FuzzC09_Settings$", thorough_only=True, fuzztime=(0, 45), timeout=(0, 400))],
